@@ -95,3 +95,41 @@ func hasNotOverText(f *model.Filter, underNot bool) bool {
 	}
 	return false
 }
+
+// TimechartSplitLimit: timechart keeps the 10 largest series and folds the rest into "other"; the
+// generator stays below it so that the split-by answer is fully determined.
+const TimechartSplitLimit = 8
+
+// MaybeTimechartBy turns a timechart query into `timechart … by <field>` (half of the time) when the
+// dataset has a suitable split-by column: only non-empty strings, at most TimechartSplitLimit distinct values.
+func MaybeTimechartBy(t *rapid.T, q *model.StatsQuery, names []string, vals map[string][]model.Val) {
+	if !q.Timechart || len(q.By) > 0 {
+		return
+	}
+	var cands []string
+	for _, n := range names {
+		vs := vals[n]
+		if len(vs) == 0 {
+			continue
+		}
+		ok := true
+		distinct := map[string]bool{}
+		for _, v := range vs {
+			if v.K == model.KNull {
+				continue
+			}
+			if v.K != model.KStr || v.S == "" || v.S == "other" || v.S == "NULL" {
+				ok = false
+				break
+			}
+			distinct[v.S] = true
+		}
+		if ok && len(distinct) >= 1 && len(distinct) <= TimechartSplitLimit {
+			cands = append(cands, n)
+		}
+	}
+	if len(cands) == 0 || rapid.IntRange(0, 3).Draw(t, "timechartBy") == 0 {
+		return
+	}
+	q.By = []string{cands[rapid.IntRange(0, len(cands)-1).Draw(t, "tcByField")]}
+}
